@@ -219,6 +219,7 @@ func runNBRandom(w *rt.World, res *hx.Result, kind int) *hx.Violation {
 	}
 	var stopper *rt.Task
 	stoppedEarly := false
+	stopCalled := &rt.Flag{} // set when the early stopper is about to call Stop (it may still be waiting for its trigger)
 	if stopMode >= 2 {
 		stoppedEarly = true
 		stopper = rt.GoHarness("stopper", serverHost, func() {
@@ -240,6 +241,7 @@ func runNBRandom(w *rt.World, res *hx.Result, kind int) *hx.Violation {
 			default:
 				rt.SleepUntil(startT + stopAt)
 			}
+			stopCalled.Set()
 			noteStop()
 			sys.stop()
 		})
@@ -259,8 +261,31 @@ func runNBRandom(w *rt.World, res *hx.Result, kind int) *hx.Violation {
 		rt.Join(churnTask, -1)
 	}
 
-	// ---- quiet phase: once faults have stopped the server still answers (bounded liveness)
+	// ---- the churn itself: every release / re-registration of the cycle is acknowledged as a success, and whole
+	// rounds bring the group back to where it started (absolute checks: a server that mishandles a sequence of
+	// requests on one connection does so on the quiescent server too, where the differential oracle learns from it)
 	w.Quiet = true
+	churnClean := churnOn && churnReliable && !stoppedEarly && (churnTCP || (w.Stats.Probes[rt.PDgramDup] == 0 && w.Stats.Probes[rt.PDgramDelayed] == 0 && w.Stats.Probes[rt.PDgramDropped] == 0))
+	if churnClean {
+		for i, rc := range churnRcodes {
+			if rc != 0 {
+				st := churnCycle[i%len(churnCycle)]
+				return &hx.Violation{Class: "wrong_answer", Key: sysName + "/churn-step",
+					Msg: fmt.Sprintf("step %d of the release / re-register cycle on the group %s (opcode %d for member %v) was answered with rcode %d although the member was in the state the step expects", i, churnName, st.op, churnMembers[st.m], rc)}
+			}
+		}
+		var final []byte
+		fq := rt.GoHarness("churn-final", "10.0.1.252", func() {
+			final = udpExchange(buildRequest(0x0445, 0, 0, []string{churnName}, "", nil, 0, false), 3*time.Second)
+		})
+		rt.Join(fq, -1)
+		if len(churnUDP) > 0 && final != nil && !equalModID(final, churnUDP[0]) {
+			return &hx.Violation{Class: "wrong_answer", Key: sysName + "/churn-final-state",
+				Msg: fmt.Sprintf("after %d complete release / re-register rounds the group %s does not answer as it did before the rounds.\n  now   : %s\n  before: %s", churnRounds, churnName, describeResp(final), describeResp(churnUDP[0]))}
+		}
+	}
+
+	// ---- quiet phase: once faults have stopped the server still answers (bounded liveness)
 	if !stoppedEarly {
 		var pu, pt []byte
 		probeReq := buildRequest(0x7001, 0, 0, []string{nameOf(0)}, "", nil, 0, false)
@@ -290,6 +315,9 @@ func runNBRandom(w *rt.World, res *hx.Result, kind int) *hx.Violation {
 			noteStop()
 			sys.stop()
 		})
+	}
+	if stoppedEarly {
+		stopCalled.Wait(-1) // the bound runs from the call of Stop
 	}
 	stopOK := joinWithin(stopper, nbStopBound)
 	var leakV *hx.Violation
@@ -655,8 +683,12 @@ func churnOp(sys *nbSystem, kind, op int, m net.IP) {
 
 // churner walks the churn cycle during the concurrent phase. Every step is repeated until the server
 // acknowledged it (the operations are idempotent); false = a step was never acknowledged.
+// churnRcodes collects the response code of every acknowledged churn step (harness-private, read after the run).
+var churnRcodes []int
+
 func churner(tcp bool, rounds int) bool {
 	id := uint16(0x0600)
+	churnRcodes = churnRcodes[:0]
 	if tcp {
 		c, err := simnet.Dial("tcp", serverHost+":137")
 		if err != nil {
@@ -673,9 +705,11 @@ func churner(tcp bool, rounds int) bool {
 				if _, err := c.Write(append(fr, req...)); err != nil {
 					return false
 				}
-				if readFrame(c) == nil {
+				f := readFrame(c)
+				if f == nil {
 					return false
 				}
+				churnRcodes = append(churnRcodes, parseResponse(f).rcode)
 			}
 		}
 		return true
@@ -685,7 +719,11 @@ func churner(tcp bool, rounds int) bool {
 			acked := false
 			for try := 0; try < 4 && !acked; try++ {
 				id++
-				acked = udpExchange(churnReq(id, st.op, churnMembers[st.m]), time.Second) != nil
+				resp := udpExchange(churnReq(id, st.op, churnMembers[st.m]), time.Second)
+				acked = resp != nil
+				if acked && try == 0 {
+					churnRcodes = append(churnRcodes, parseResponse(resp).rcode)
+				}
 			}
 			if !acked {
 				return false
